@@ -28,7 +28,7 @@ func (c17) Runs(tier string) int64 {
 	if tier == "thorough" {
 		return 12000000
 	}
-	return 60000
+	return 200000
 }
 func (c17) Prefix(string, int64) []uint64 { return nil }
 
